@@ -568,6 +568,51 @@ func run(args []string) error {
 		}
 	}
 
+	// ---- deterministic sweep over code-point classes of the passphrase (and of an invalid mnemonic):
+	//      the expected seed is PBKDF2 over the NFKD forms, computed by Python (unicodedata + hashlib)
+	{
+		classes := []string{
+			// ASCII only
+			"", "a", "password", "TREZOR", "~!@#$%^&*()_+ \t",
+			// Latin-1 (<= U+00FF) characters that are NOT stable under NFKD
+			"\u00a0", "\u00aa", "\u00b2", "\u00b3", "\u00b5", "\u00b9", "\u00ba", "\u00bc", "\u00bd", "\u00be", "\u00a8", "\u00af", "\u00b4", "\u00b8",
+			"\u00c0", "\u00c9", "\u00d1", "\u00d6", "\u00dc", "\u00e0", "\u00e9", "\u00f1", "\u00f6", "\u00fc", "\u00ff", "\u00c5", "\u00e7",
+			"caf\u00e9", "na\u00efve \u00bd", "x\u00b2+y\u00b2", "M\u00fcnchen \u00a0 Stra\u00dfe",
+			// Latin-1 characters that ARE stable
+			"\u00df", "\u00e6", "\u00f8", "\u00d7", "\u00a9\u00ae",
+			// precomposed vs decomposed pairs
+			"e\u0301", "o\u0308", "A\u030a", "n\u0303", "\u1e9b\u0323", "\u1e9b", "s\u0323\u0307", "\u01fa", "A\u030a\u0301",
+			// compatibility characters above U+00FF
+			"\ufb01", "\u2460", "\uff21\uff22\uff23", "\u2126", "\u212b", "\u3392", "\u2075", "\u210c", "\u2163", "\ufdfa", "\uff76\uff9e",
+			// Hangul, kana, CJK, emoji
+			"\ud55c\uae00", "\u1112\u1161\u11ab", "\u30ac", "\u30ab\u3099", "\u5341\u4eba\u5341\u8272", "\U0001f511",
+			// mixtures
+			"pass\u00e9\ufb01\u2460word", "\u00bd\u2126", "\u00e9\U0001f511", "a\u00a0b\u3000c", "\u00c5\u212b\u0041\u030a",
+			// not UTF-8
+			"\xe9", "\xc3", "ab\xff\u00e9",
+		}
+		mn, _ := bip39.NewMnemonic(make([]byte, 16))
+		mn2, _ := bip39.NewMnemonic(g.entropy())
+		for ci, p := range classes {
+			m := mn
+			if ci%2 == 1 {
+				m = mn2
+			}
+			var sd []byte
+			var err error
+			obs := ""
+			if Guard(func() { sd, err = bip39.NewSeed(m, p) }) {
+				obs = "panic"
+			} else if err != nil {
+				obs = err39(err)
+			} else {
+				obs = hx(sd)
+			}
+			emit("seedclass", "seed", []string{hs(m), hs(p)}, obs, map[string]interface{}{"kind": "passphrase-class", "mnemonic": m, "passphrase_hex": hs(p)})
+		}
+		hist.Add(fmt.Sprintf("seedclass=%d", len(classes)))
+	}
+
 	if f.Out == "" {
 		return fmt.Errorf("-out required")
 	}
